@@ -164,6 +164,13 @@ func buildReport(
 		}
 		sigs = parsedSigs
 
+		// validates the lane updates (non-nil fields, 32-byte roots) before they are used below
+		laneUpdates, err := rmn.NewLaneUpdatesFromPB(q.RMNSignatures.LaneUpdates)
+		if err != nil {
+			lggr.Errorw("Failed to parse RMN lane updates returning an empty outcome", "err", err)
+			return Outcome{}
+		}
+
 		type rootKey struct {
 			ChainSel      cciptypes.ChainSelector
 			SeqNumsRange  cciptypes.SeqNumRange
@@ -172,18 +179,15 @@ func buildReport(
 		}
 
 		signedRoots := mapset.NewSet[rootKey]()
-		for _, laneUpdate := range q.RMNSignatures.LaneUpdates {
+		for _, laneUpdate := range laneUpdates {
 			rk := rootKey{
-				ChainSel: cciptypes.ChainSelector(laneUpdate.LaneSource.SourceChainSelector),
-				SeqNumsRange: cciptypes.NewSeqNumRange(
-					cciptypes.SeqNum(laneUpdate.ClosedInterval.MinMsgNr),
-					cciptypes.SeqNum(laneUpdate.ClosedInterval.MaxMsgNr),
-				),
-				MerkleRoot: cciptypes.Bytes32(laneUpdate.Root),
+				ChainSel:     laneUpdate.SourceChainSelector,
+				SeqNumsRange: cciptypes.NewSeqNumRange(laneUpdate.MinSeqNr, laneUpdate.MaxSeqNr),
+				MerkleRoot:   laneUpdate.MerkleRoot,
 				// NOTE: convert address into a comparable value for mapset.
 				OnRampAddress: typconv.AddressBytesToString(
-					laneUpdate.LaneSource.OnrampAddress,
-					laneUpdate.LaneSource.SourceChainSelector),
+					laneUpdate.OnRampAddress,
+					uint64(laneUpdate.SourceChainSelector)),
 			}
 
 			lggr.Infow("Found signed root", "root", rk)
